@@ -33,6 +33,13 @@ ASSUMPTIONS = [
     'sanitizer search: g++ -fsanitize=address,undefined -fno-sanitize-recover=all -fno-omit-frame-pointer on harness AND library objects; leak checking (LSan, at exit) only on '
     'harnesses that exit normally (cvec smallvec opresult oncefn arena poolalloc); fork-per-case / vsched harnesses (_exit, deliberate deadlocks) run with detect_leaks=0',
     'OnceFunction cases that overwrite an owning OnceFunction (documented leak: the class has no destructor; C39_neither_leaks) are excluded from the leak-checked run',
+    'LSan cannot see a leaked element that owns no heap memory: for smallvec / cvec / opresult the harness\' own lifetime ledger (life.h: misuse flags, constructions = destructions, '
+    'blocks allocated = freed at the end) is evaluated on the output of the sanitizer run as well (record kind 10)',
+    'NOT judged (counted and listed in the evidence): reports whose faulting frame is inside the test scaffolding vs::Sched (harness/vsched.h: spawn() pushes to the thread table '
+    'without the scheduler mutex while a started thread indexes it in point(); the slower instrumented build exposes this race of the scaffolding), and child processes that died '
+    'without a usable report and did not do so again in two re-runs of the same case',
+    'sanitizer builds use -O0 -g1 (compile time); the cases are the owners\' quick-tier generators (a few hundred per harness, more in the thorough tier); the runs show nothing about '
+    'inputs, schedules or components that were not run',
 ]
 
 SAN = ['-fsanitize=address,undefined', '-fno-sanitize-recover=all', '-fno-omit-frame-pointer']
@@ -312,12 +319,12 @@ HARNESSES = [
     {'id': 1, 'name': 'h_cvec', 'lib': False, 'flags': ['-Wl,--wrap=free', '-Wl,--wrap=malloc'], 'leaks': True, 'ledger': ledger_cvec, 'gen': gen_cvec, 'n': (140, 1200), 'quick': True, 'owner': 'C32'},
     {'id': 3, 'name': 'h_opresult', 'lib': False, 'flags': ['-std=c++17'], 'leaks': True, 'ledger': ledger_opresult, 'gen': gen_opresult, 'n': (300, 2000), 'quick': True, 'owner': 'C40'},
     {'id': 4, 'name': 'h_oncefn', 'lib': True, 'flags': ['-Wl,--wrap=malloc', '-Wl,--wrap=free'], 'leaks': True, 'gen': gen_oncefn, 'n': (520, 2000), 'quick': True, 'owner': 'C39'},
-    {'id': 11, 'name': 'h_timedtask', 'lib': True, 'flags': [], 'leaks': False, 'gen': gen_timedtask, 'n': (100, 1500), 'quick': True, 'owner': 'C26'},
+    {'id': 11, 'name': 'h_timedtask', 'lib': True, 'flags': [], 'leaks': False, 'gen': gen_timedtask, 'n': (100, 800), 'quick': True, 'owner': 'C26'},
     {'id': 6, 'name': 'h_poolalloc', 'lib': True, 'flags': [], 'leaks': True, 'gen': gen_poolalloc, 'n': (300, 2000), 'quick': False, 'owner': 'C42'},
-    {'id': 7, 'name': 'h_spsc', 'lib': False, 'flags': [], 'leaks': False, 'gen': gen_spsc, 'n': (120, 1000), 'quick': False, 'owner': 'C35'},
-    {'id': 8, 'name': 'h_mpmc', 'lib': False, 'flags': [], 'leaks': False, 'gen': gen_mpmc, 'n': (120, 1000), 'quick': False, 'owner': 'C34'},
-    {'id': 9, 'name': 'h_future', 'lib': True, 'flags': [], 'leaks': False, 'gen': gen_future, 'n': (150, 1000), 'quick': False, 'owner': 'C18'},
-    {'id': 10, 'name': 'h_pipeline', 'lib': True, 'flags': [], 'leaks': False, 'gen': gen_pipeline, 'n': (150, 800), 'quick': False, 'owner': 'C27-C29 (pipe_common)'},
+    {'id': 7, 'name': 'h_spsc', 'lib': False, 'flags': [], 'leaks': False, 'gen': gen_spsc, 'n': (120, 600), 'quick': False, 'owner': 'C35'},
+    {'id': 8, 'name': 'h_mpmc', 'lib': False, 'flags': [], 'leaks': False, 'gen': gen_mpmc, 'n': (120, 600), 'quick': False, 'owner': 'C34'},
+    {'id': 9, 'name': 'h_future', 'lib': True, 'flags': [], 'leaks': False, 'gen': gen_future, 'n': (150, 600), 'quick': False, 'owner': 'C18'},
+    {'id': 10, 'name': 'h_pipeline', 'lib': True, 'flags': [], 'leaks': False, 'gen': gen_pipeline, 'n': (150, 500), 'quick': False, 'owner': 'C27-C29 (pipe_common)'},
 ]
 
 
@@ -396,9 +403,11 @@ def run_sanitized(h, exe, lines, quick):
         hit = False
         for j, seg in enumerate(segs):
             kd, sm = classify(seg)
-            if kd == 8 and 'Sanitizer' not in seg:
-                # the child died WITHOUT any sanitizer report (parent's CRASH line only).  Deterministic -> a crash of the real code
-                # (violation); not reproducible in two more runs of the same case -> inconclusive (kind 98: counted, listed, not judged)
+            if kd == 8 and not re.search(r'#0 0x[0-9a-f]+', seg):
+                # the child died WITHOUT a usable sanitizer report (parent's CRASH line only, or a SEGV report cut off before its
+                # first stack frame: the child's watchdog alarm fired while ASan was symbolizing on a loaded machine).  Deterministic -> a
+                # crash of the real code (violation); not reproducible in two more runs of the same case -> inconclusive (kind 98:
+                # counted, listed, not judged)
                 again = [run_batch(exe, [sub[j]], False, timeout) for _ in range(2)]
                 rep = [a for a in again if a[2] != 0]
                 if rep:
@@ -471,6 +480,11 @@ def sanitizer_job(ctx, h, rng, quick, replay_line=None):
     shim = _Shim(rng, True)
     if replay_line is not None:
         lines, meta = [replay_line], {}
+        if h['id'] == H_TIMEDTASK and replay_line.startswith('ls '):      # 'ls n npool budget ; R rets ; U prog ; S sched' -> C26's case dict
+            q = [x.strip() for x in replay_line.split(';')]
+            hd = q[0].split()
+            meta = {'cases': [{'n': int(hd[1]), 'npool': int(hd[2]), 'budget': int(hd[3]), 'rets': [int(x) for x in q[1].split()[1:]],
+                               'prog': q[2].split()[1:], 'sched': [int(x) for x in q[3].split()[1:]]}]}
     else:
         lines, meta = h['gen'](shim, exe, h['n'][0 if quick else 1])
     records, problems = run_sanitized(h, exe, lines, quick)
